@@ -32,7 +32,7 @@ func init() {
 			"per cell: DecryptBytes over plaintext lengths 0..33 (all residues mod 16, zero-byte tails) must return the exact bytes, Decrypt must unmarshal, and the encrypted Response must behave as its plaintext twin (outcome, data, flags); distinct = shape hash (cell, length mode, placement, outcome)",
 		Directed:   c11Directed,
 		Run:        c11Run,
-		MustHit:    []string{"key=field", "key=tls", "key=setter", "key=both", "key=both-differ", "key=both-differ-tls", "sp_restart", "detached", "inline", "pkcs1v15", "oaep_sha512", "cbc", "gcm", "zero_tail", "len_mod16=0", "twin", "key_rotation", "advertised_method_exercised", "envelopes_differ_within_response", "encrypted_assertion_prefix_declared_on_root_only"},
+		MustHit:    []string{"key=field", "key=tls", "key=setter", "key=both", "key=both-differ", "key=both-differ-tls", "sp_restart", "detached", "inline", "pkcs1v15", "oaep_sha512", "cbc", "gcm", "zero_tail", "len_mod16=0", "twin", "key_rotation", "advertised_method_exercised", "envelopes_differ_within_response", "encrypted_assertion_prefix_declared_on_root_only", "encrypted_key_with_recipient_attribute", "base64_in_lines"},
 		RandomRuns: map[string]int{"quick": 1200, "thorough": 8000},
 		Assumptions: []string{"encrypted layouts are exercised with signature checking on (with SkipSignatureValidation the library never decrypts; outside this property's quantifier)",
 			"OAEP / PKCS#1 v1.5 ciphertext bytes are not replayable in Go (hidden randomness) and are excluded from run digests"},
@@ -83,6 +83,14 @@ func c11Run(r *core.Run) {
 	rotate := t.Int(5, "c11.rotate")    // 0 none; key rotation on the live SP: 1 setter->setter 2 field->field 3 field->setter 4 setter->field-cleared
 	ks := c11KeyStyles[ksi]
 	o.EnvelopeNSFromRoot = t.Int(3, "c11.nsfromroot") == 1 // the EncryptedAssertion element relies on the root's xmlns:saml
+	o.RecipientAttr = []string{"", "", "https://sp.example/acs", "https://sp.example/meta", "sp-alias", " "}[t.Int(6, "c11.recipientattr")]
+	o.B64Wrap = t.Int(3, "c11.b64wrap")
+	if o.RecipientAttr != "" {
+		r.Probe("encrypted_key_with_recipient_attribute")
+	}
+	if o.B64Wrap != 0 {
+		r.Probe("base64_in_lines")
+	}
 
 	s := NewStd(r)
 	s.DrawLive()
